@@ -30,6 +30,25 @@ func main() {
 		for _, id := range ids {
 			fmt.Printf("%s  %s\n", id, props.Registry[id].Title)
 		}
+	case "dump":
+		dumpFunc(os.Args[2:])
+	case "funcs":
+		// inventory of the top-level functions and methods of a tree (baseline_funcs.txt is generated with it)
+		fs := flag.NewFlagSet("funcs", flag.ExitOnError)
+		repo := fs.String("repo", "/repo", "repository to analyse")
+		fs.Parse(os.Args[2:])
+		os.Setenv("DBLINT_NOINLINE", "1")
+		prog := core.Load(*repo, nil)
+		var names []string
+		for _, fn := range prog.ModuleFuncs() {
+			if fn.Parent() == nil {
+				names = append(names, core.FuncName(fn))
+			}
+		}
+		sort.Strings(names)
+		for _, n := range names {
+			fmt.Println(n)
+		}
 	case "doc":
 		var ids []string
 		for id := range props.Registry {
@@ -100,6 +119,10 @@ func check(id, tier, repo, verif string, noposex bool) (code int) {
 		run.NoPosex = true
 		run.Note("the in-memory positive examples do not type-check against this tree (a declaration they refer to changed); the rules ran on the tree itself, without the armed-ness self-check")
 		fmt.Println("note: positive examples dropped (they do not type-check against this tree); rules run without the armed-ness self-check")
+	}
+	if len(prog.InlinedHelpers) > 0 {
+		run.Note("functions that do not exist in the reviewed tree were inlined into their callers in the analysed SSA form: %s", strings.Join(prog.InlinedHelpers, ", "))
+		fmt.Printf("note: new helpers inlined at their call sites: %s\n", strings.Join(prog.InlinedHelpers, ", "))
 	}
 	run.Stats["module_packages"] = len(prog.Pkgs)
 	run.Stats["module_functions"] = len(prog.ModuleFuncs())
